@@ -584,7 +584,10 @@ class Ser:
                 head = [(f"> [!{a}]", "x")]
                 return head + self.prefix([("", "x")] + inner, "", "> ", ">")[1:] if False else \
                     head + [(("> " + ln) if ln else ">", k) for ln, k in inner]
-            return self.prefix(inner, "> ", "> ", ">")
+            res = self.prefix(inner, "> ", "> ", ">")
+            if self.wild and L.random() < 0.15:
+                res.append((">", "x"))  # a trailing empty quoted line is still the same quote
+            return res
         if t == "fndef":
             self.cdepth += 1
             inner = self.blocks(b["blocks"])
